@@ -49,6 +49,7 @@ static const char *nshape(const fcase_t *c) {
     int i, seen = 0;
     for (i = 0; i < c->nd; i++) {
         const fdir_t *d = &c->d[i];
+        if (d->conv == '[') return "after-unknown-conversion";
         if (d->conv != 'n') { if (d->conv != '%' && d->conv != 'N') seen = 1; else seen = seen ? 1 : 2; continue; }
         if (d->esc > 0) return "after-escaped-percent";
         if (d->len != LEN_NONE) return "length-modifier";
